@@ -138,6 +138,13 @@ def run(P, u, rep, TokenWorld):
         rep.undecided('R08.3', base, 'struct_members() vanished')
         return
     where = '%s:%d' % (PU, fn.line)
+    # the oracle reads the member list from the Type the function is handed: that is the interface judged
+    try:
+        from .build import require_signature
+        require_signature(u, fname, ['Token **', 'Token *', 'Type *'], 'void')
+    except AnalysisBroken as e:
+        rep.undecided('R08.3', base, str(e), where=where)
+        return
     called = set(c.callee() for c in fn.calls() if c.callee())
     if 'declspec' not in called or 'declarator' not in called:
         rep.undecided('R08.3', base, 'struct_members() does not call declspec() and declarator() any more: shape not recognised', where=where)
